@@ -575,6 +575,19 @@ fn check_step(c: &Ctx<'_>, stats: &mut RunStats, models_fix: &mut Option<Option<
                 format!("before {} after {:?}", show(pre_bytes), post_t.map(|p| show(&p.bytes))),
             ));
         }
+        // ... and an exclusively owned target keeps the room it had: a failed call is not a shrink
+        // request (C11: reserved room is really there; C06/C05: nothing is left changed)
+        if let (Some(a), Some(b)) = (pre_t, post_t) {
+            let exclusive = a.class == Storage::Inline || (a.class == Storage::Heap && a.rc == Some(1));
+            // (iterator-driven operations may have made progress, reallocating on the way)
+            if exclusive && !consumed && !op.is_constructor() && !op.is_item_sequence() && b.cap < a.cap {
+                return Some(c.v(
+                    c.ctx_tags(&["C11"]),
+                    "failed_op_lost_capacity",
+                    format!("capacity {} ({}) before the failed call, {} ({}) after it", a.cap, a.class.name(), b.cap, b.class.name()),
+                ));
+            }
+        }
         stats.relevant("C05");
         if op.size_arg().is_some() {
             stats.relevant("C06");
@@ -1269,6 +1282,7 @@ fn survivable(invariant: &str) -> bool {
             | "try_form_panicked"
             | "refusal_swallowed"
             | "failed_op_changed_target"
+            | "failed_op_lost_capacity"
             | "rejected_index_had_effect"
             | "clone_allocated"
             | "clone_not_shared"
